@@ -118,6 +118,16 @@ const (
 	kCtxCancel   = "ctx-cancel"
 	kCtxDeadline = "ctx-deadline"
 
+	// kOverlongLine is a well-formed 200 answer with a correct Content-Length
+	// and a body under the size limit whose *content* may make the consumer
+	// fail part-way: the first half of the lines of the offered version, one
+	// line of 70 000 octets that the parser of the content ignores (a comment
+	// for the lists, white space for the JSON indexes), the remaining lines.
+	// bufio.Scanner based consumers stop at it with ErrTooLong.  Histories
+	// that contain it run with all size limits multiplied by
+	// overlongSizeFactor.
+	kOverlongLine = "overlong-line"
+
 	kOversizeChunked    = "oversize-chunked"     // the complete offered version, then padding beyond the limit
 	kOversizeChunkedCut = "oversize-chunked-cut" // padding after the first marker, so that the limit falls inside a later rule of the offered version
 
@@ -238,6 +248,11 @@ func in2(s string, set []string) (ok bool) {
 var fetchFaults = []string{kDial, kTimeout, kTimeoutBody, k404, k500, kEmpty, kOversize, kCut, kChunked,
 	kOversizeChunked, kOversizeChunkedCut, kEmptyChunked, kEmptyClose, kEmptyGzip, kCtxCancel, kCtxDeadline}
 
+const (
+	overlongLineLen    = 70000
+	overlongSizeFactor = 24
+)
+
 // roundDeadline is the time-out of the round context in rounds that contain
 // a kCtxDeadline deviation; it is shorter than the per-download time-out, so
 // the round context ends first.
@@ -266,6 +281,7 @@ func (w *world) roundContext(parent context.Context, plan map[string]string) (ct
 // kindsFor returns the deviation kinds applicable to a download position.
 func kindsFor(pos string) (kinds []string) {
 	kinds = append(kinds, fetchFaults...)
+	kinds = append(kinds, kOverlongLine)
 	switch pos {
 	case posIdx:
 		kinds = append(kinds, kNotJSON, kBadKey, kEmptyURL, kBadURL, kDupID,
@@ -286,6 +302,9 @@ func kindsFor(pos string) (kinds []string) {
 func coreKind(pos, kind string) (ok bool) {
 	if in2(kind, []string{kOversizeChunkedCut, kEmptyChunked, kEmptyClose, kEmptyGzip, kCtxDeadline}) {
 		// Near-duplicates of kOversizeChunked and kEmpty.
+		return false
+	}
+	if kind == kOverlongLine {
 		return false
 	}
 	if isFetchFault(kind) || kind == kNotJSON {
@@ -456,7 +475,10 @@ func svcJSON(v int, kind string) (body string) {
 }
 
 // maxSizeOf returns the configured size limit of a position.
-func maxSizeOf(pos string) (n int) {
+func maxSizeOf(pos string, factor int) (n int) {
+	if factor > 1 {
+		return factor * maxSizeOf(pos, 1)
+	}
 	switch pos {
 	case posIdx:
 		return int(maxIndexSize.Bytes())
@@ -497,6 +519,8 @@ func buildDelivered(pos string, v int, kind string) (body string) {
 		c := content(pos, v)
 
 		return c[:len(c)/2]
+	case kOverlongLine:
+		return withOverlongLine(pos, content(pos, v))
 	default:
 		if !isIndexShapeKind(pos, kind) {
 			return ""
@@ -507,6 +531,26 @@ func buildDelivered(pos string, v int, kind string) (body string) {
 
 		return svcJSON(v, kind)
 	}
+}
+
+// withOverlongLine inserts one ignorable line of overlongLineLen octets into
+// the middle of full.
+func withOverlongLine(pos, full string) (body string) {
+	if pos == posIdx || pos == posSvc {
+		// The whole index is one line; make it a long one.
+		sp := strings.IndexByte(full, '[') + 1
+
+		return full[:sp] + strings.Repeat(" ", overlongLineLen) + full[sp:]
+	}
+	mark := "!"
+	if pos == posHP {
+		mark = "#"
+	}
+	lines := strings.SplitAfter(full, "\n")
+	half := len(lines) / 2
+	long := mark + strings.Repeat("p", overlongLineLen-2) + "\n"
+
+	return strings.Join(lines[:half], "") + long + strings.Join(lines[half:], "")
 }
 
 // world is the scripted internet.  Its fields are changed only between
@@ -522,6 +566,10 @@ type world struct {
 
 	// down makes every dial fail.
 	down bool
+
+	// sizeFactor is the factor by which the size limits of the storage under
+	// test are multiplied (0 or 1: none); oversized answers follow it.
+	sizeFactor int
 
 	// cancelRound cancels the context of the current refresh round, see
 	// [world.roundContext].
@@ -612,7 +660,7 @@ func (w *world) serve(c net.Conn, pos string, v int, kind string) {
 		return
 	}
 
-	raw, stall := rawResponse(pos, req.URL.Path, v, kind)
+	raw, stall := rawResponse(pos, req.URL.Path, v, kind, w.sizeFactor)
 	for len(raw) > 0 {
 		n := len(raw)
 		if w.chunk > 0 && n > w.chunk {
@@ -631,7 +679,7 @@ func (w *world) serve(c net.Conn, pos string, v int, kind string) {
 
 // rawResponse returns the bytes written to the connection and whether the
 // server then keeps the connection open silently.
-func rawResponse(pos, path string, v int, kind string) (raw []byte, stall bool) {
+func rawResponse(pos, path string, v int, kind string, factor int) (raw []byte, stall bool) {
 	const hdr = "Server: c13/1.0\r\nConnection: close\r\n"
 	status := func(code int, text string) []byte {
 		body := text + "\n"
@@ -677,7 +725,7 @@ func rawResponse(pos, path string, v int, kind string) (raw []byte, stall bool) 
 		if pos == posIdx || pos == posSvc {
 			pad = "                                                                \n"
 		}
-		for b.Len() <= maxSizeOf(pos)+512 {
+		for b.Len() <= maxSizeOf(pos, factor)+512 {
 			b.WriteString(pad)
 		}
 
@@ -692,7 +740,7 @@ func rawResponse(pos, path string, v int, kind string) (raw []byte, stall bool) 
 		return []byte(fmt.Sprintf("HTTP/1.1 200 OK\r\n%sContent-Type: text/plain\r\nContent-Encoding: gzip\r\nContent-Length: %d\r\n\r\n%s",
 			hdr, len(z), z)), false
 	case kOversizeChunked, kOversizeChunkedCut:
-		return chunkedOK(hdr, oversizedBody(pos, full, kind == kOversizeChunkedCut)), false
+		return chunkedOK(hdr, oversizedBody(pos, full, kind == kOversizeChunkedCut, factor)), false
 	case kCut:
 		return ok(len(full), full[:len(full)/2]), false
 	case kChunked:
@@ -743,8 +791,8 @@ func padding(pos string, n int) (pad string) {
 // first marker (after the opening bracket of the array for the indexes), so
 // that the limit falls in the middle of a later rule: the first limit bytes
 // contain the first marker but not the last one.
-func oversizedBody(pos, full string, cut bool) (body string) {
-	limit := maxSizeOf(pos)
+func oversizedBody(pos, full string, cut bool, factor int) (body string) {
+	limit := maxSizeOf(pos, factor)
 	if !cut {
 		return full + padding(pos, limit+512-len(full))
 	}
